@@ -549,7 +549,7 @@ def r4(ctx):
                     break
                 ok, why = False, "loop continues without climbing to the parent"
                 break
-            if not re.fullmatch(re.escape(latest) + r"\.parent(@\d+)?", vtext(climbs[i][2])):
+            if not re.fullmatch(re.escape(latest) + r"(\.parent)*(@\d+)?\.parent(@\d+)?", vtext(climbs[i][2])) or vtext(climbs[i][2]).count(".parent") != i + 1:
                 ok, why = False, f"climb assigns {vtext(climbs[i][2])}, expected <latest>.parent"
                 break
             i += 1
